@@ -11,7 +11,11 @@ thread_local! {
 
 /// Install a panic hook that prints nothing and remembers message + location per thread.
 pub fn install_silent_panic_hook() {
-    std::panic::set_hook(Box::new(|info| {
+    let verbose = std::env::var_os("VERIF_PANIC_VERBOSE").is_some();
+    std::panic::set_hook(Box::new(move |info| {
+        if verbose {
+            eprintln!("[panic] {info}");
+        }
         let msg = if let Some(s) = info.payload().downcast_ref::<&str>() {
             s.to_string()
         } else if let Some(s) = info.payload().downcast_ref::<String>() {
